@@ -3,6 +3,7 @@ package main
 import (
 	"bufio"
 	"bytes"
+	"context"
 	"encoding/json"
 	"fmt"
 	"io"
@@ -10,6 +11,7 @@ import (
 	"os/exec"
 	"strings"
 	"sync"
+	"time"
 )
 
 func readJob(v interface{}) {
@@ -120,12 +122,16 @@ func runInChildren(child string, n, workers, chunk int, mkJob func(lo, hi int) i
 				}
 				for sp.lo < sp.hi {
 					in, _ := json.Marshal(mkJob(sp.lo, sp.hi))
-					cmd := exec.Command(os.Args[0], child)
+					// watchdog: a child that is wedged (e.g. a lock of the code under test that is never released) is killed
+					wctx, wcancel := context.WithTimeout(context.Background(), time.Duration(45+20*(sp.hi-sp.lo))*time.Second)
+					cmd := exec.CommandContext(wctx, os.Args[0], child)
 					cmd.Stdin = bytes.NewReader(in)
 					var out, errb bytes.Buffer
 					cmd.Stdout = &out
 					cmd.Stderr = &errb
 					runErr := cmd.Run()
+					hung := wctx.Err() != nil
+					wcancel()
 					// split the output into items
 					done := sp.lo
 					var cur []obj
@@ -162,7 +168,10 @@ func runInChildren(child string, n, workers, chunk int, mkJob func(lo, hi int) i
 					if len(tail) > 1500 {
 						tail = tail[:1500]
 					}
-					cur = append(cur, obj{"t": t, "e": "crash", "detail": tail}, obj{"t": t, "e": "end"})
+					if hung {
+						tail = "the child process was wedged and had to be killed; " + tail
+					}
+					cur = append(cur, obj{"t": t, "e": "crash", "hang": hung, "detail": tail}, obj{"t": t, "e": "end"})
 					em.lines(cur)
 					sp.lo = t + 1
 				}
